@@ -105,7 +105,12 @@ class Run(RunBase):
             crys = CRYSTALS[world["crystal"]][0]()
             self.decoy_on(crys, world["pool_seed"])
             chem = self.wd.chem
-            self.ctor_args = (crys.sitelist(chem), crys.jumpnetwork(chem, self.wd.cut))
+            jn_ = crys.jumpnetwork(chem, self.wd.cut)
+            if world["pool_seed"] % 2:
+                # a hand-ordered but legal jump network: all forward jumps of a type first, then all reverses
+                jn_ = [jl[0::2] + jl[1::2] for jl in jn_]
+                self.faults["hand-ordered-jump-network"] += 1
+            self.ctor_args = (crys.sitelist(chem), jn_)
             self.calc = OnsagerCalc.VacancyMediated(crys, chem, self.ctor_args[0], self.ctor_args[1],
                                                     self.N, NGFmax=self.NGF)
             self.faults["calculator-on-used-crystal-object"] += 1
@@ -270,9 +275,9 @@ class Run(RunBase):
             [{"op": "regen", "N": ([r for r in self.w["ranges"] if r != self.N] or [self.N])[0]},
              {"op": "regrid", "n": ([g for g in self.w["grids"] if g != self.NGF] or [self.NGF])[0], "adopt": True},
              {"op": "regen", "N": self.N}],
-            [{"op": "regen", "N": ([r for r in self.w["ranges"] if r != self.N] or [self.N])[0]},
-             {"op": "regrid", "n": ([g for g in self.w["grids"] if g != self.NGF] or [self.NGF])[0], "adopt": True},
-             {"op": "regen", "N": self.N}]))
+            # to another k-mesh, an evaluation there, and back
+            [{"op": "regrid", "n": ([g for g in self.w["grids"] if g != self.NGF] or [self.NGF])[0], "adopt": True},
+             call(k1), call(k2), {"op": "regrid", "n": self.NGF, "adopt": True}]))
         tail_ = [call(k2)] if rng.random() < 0.6 else [call(k2), call(k1)]
         if self.prop == "C13":
             mid = [self.gen_fork(rng)]
